@@ -1,7 +1,7 @@
 //! Layer SES: whole sessions against `Runtime` (enter / execute / interrupt / snapshots), with state dumps.
 use crate::compilelayer::src_field;
 use crate::progs::*;
-use crate::proto::unhex;
+use crate::proto::{hex, unhex};
 use crate::rng::Rng;
 use crate::rtproto::*;
 use basic::mach::{Event, Listing, Runtime};
@@ -61,6 +61,18 @@ impl Session {
         self.calls.push(format!("X {} {}", n, evs.len()));
         self.outs.push(evs.join(";"));
         last
+    }
+    /// LOAD (run = false) / RUN "file" (run = true): the file's lines go through `load_str`
+    /// (a line it refuses is skipped), then `set_listing`
+    pub fn load(&mut self, file: &[String], run: bool) {
+        let mut listing = basic::mach::Listing::default();
+        for l in file {
+            let _ = listing.load_str(l);
+        }
+        self.rt.set_listing(listing, run);
+        let body = if file.is_empty() { "-".to_string() } else { file.iter().map(|l| hex(l)).collect::<Vec<_>>().join(",") };
+        self.calls.push(format!("S {} {}", if run { 1 } else { 0 }, body));
+        self.outs.push("s".into());
     }
     pub fn interrupt(&mut self) {
         self.rt.interrupt();
@@ -131,6 +143,10 @@ pub fn answer_ses(req: &str) -> String {
                     s.exec(n, k);
                 }
                 "I" => s.interrupt(),
+                "S" => {
+                    let file: Vec<String> = if parts.get(2) == Some(&"-") { vec![] } else { parts.get(2).unwrap_or(&"").split(',').map(unhex).collect() };
+                    s.load(&file, parts.get(1) == Some(&"1"));
+                }
                 "D" => s.dump(false),
                 "DP" => s.dump(true),
                 "G" => s.snapshot(),
@@ -161,6 +177,30 @@ const QUANTA: &[usize] = &[1, 2, 3, 7, 5000];
 /// programs of the generated fragment: enter, RUN, run to the end with a random quantum, dumps
 pub fn gen_ses<W: Write>(w: &mut W, tier: &str, seed: u64) {
     let mut rng = Rng::new(seed ^ 0x5E5);
+    // the line buffer limit, on the typed text and on the listed text (D19)
+    for n in [165usize, 168, 169, 170, 171, 172, 175, 340, 510, 511, 512] {
+        let mut s = Session::new();
+        s.enter(&format!("10 {}", "?:".repeat(n)));
+        s.run_to_end(5000, &[], 20);
+        s.enter(&format!("?{}", ":?".repeat(n)));
+        s.run_to_end(5000, &[], 20);
+        s.dump(true);
+        emit(w, "K", &s);
+    }
+    for n in [1005usize, 1012, 1013, 1014, 1015, 1016, 1030] {
+        let mut s = Session::new();
+        s.enter(&format!("10 PRINT \"{}", "x".repeat(n)));
+        s.run_to_end(5000, &[], 20);
+        s.enter(&format!("20 A$=\"{}", "\u{20ac}".repeat(n / 3)));
+        s.run_to_end(5000, &[], 20);
+        // a direct line: the limit counts bytes, not characters
+        s.enter(&format!("PRINT LEN(\"{}\")", "\u{20ac}".repeat(n / 3 - 10)));
+        s.run_to_end(5000, &[], 20);
+        s.enter(&format!("PRINT LEN(\"{}\")", "\u{e9}".repeat(n / 2 - 10)));
+        s.run_to_end(5000, &[], 20);
+        s.dump(true);
+        emit(w, "K", &s);
+    }
     // every realistic line as a direct statement, and as a one-line program
     for l in LINES {
         if l.contains("RND") {
@@ -251,6 +291,26 @@ pub fn gen_hist<W: Write>(w: &mut W, tier: &str, seed: u64) {
                 1 => {
                     s.enter("RUN");
                     s.run_to_end(*rng.pick(QUANTA), &p.replies, 2500);
+                }
+                2 if rng.chance(1, 3) => {
+                    // LOAD / RUN "file": a different program replaces the one in memory, whatever state we are in
+                    let qsz = 1 + rng.below(3);
+                    let q = gen_program(&mut rng, qsz);
+                    let mut file = q.text();
+                    if rng.chance(1, 4) {
+                        file.push("PRINT 1".into()); // refused by load_str (no line number): skipped
+                    }
+                    if rng.chance(1, 6) {
+                        file.clear();
+                    }
+                    let run = rng.chance(1, 2);
+                    s.load(&file, run);
+                    s.run_to_end(5000, &q.replies, 300);
+                    if rng.chance(1, 2) {
+                        s.enter("CONT");
+                        s.run_to_end(5000, &q.replies, 300);
+                    }
+                    s.dump(true);
                 }
                 2 => {
                     // replace / insert a line
